@@ -92,6 +92,18 @@ KW = [
 ]
 
 
+# transforms and Pointers *enclosed in a delimiter*: the read-to-EOF / stream-moving exemption does not apply, both sides are measured
+KW_ENCLOSED = [
+    ("Prefixed(Byte, ProcessXor(b'\\x01\\x02\\x03', Bytes(this.n)))", {"n": (0, 5)}, "bytes:n"),
+    ("FixedSized(this.n, ProcessXor(b'\\x01\\x02\\x03\\x04\\x05', Bytes(this.n)))", {"n": (0, 7)}, "bytes:n"),
+    ("Prefixed(Byte, ProcessXor(b'ke', Struct('a'/Int16ub, 'b'/Bytes(this._params.n))))", {"n": (0, 3)}, "struct_ab2u16:n"),
+    ("FixedSized(this.n, ProcessRotateLeft(3, 2, Bytes(this.n)))", {"n": (0, 4)}, "bytes2n:n"),
+    ("Struct('h'/Byte, 'body'/FixedSized(3, Struct('f'/Pointer(0, Byte, stream=this._root._io), 'p'/Bytes(3))), 't'/Byte)", {}, "struct_hbt"),
+    ("Struct('h'/Byte, 'body'/Prefixed(Byte, Struct('f'/Pointer(0, Byte, stream=this._root._io), 'p'/Bytes(this._root._params.n))), 't'/Byte)", {"n": (0, 2)}, "struct_hbt:n"),
+    ("Struct('h'/Byte, 'body'/FixedSized(2, Struct('f'/Peek(Pointer(0, Byte, stream=this._root._io)), 'p'/Bytes(2))))", {}, "struct_hb2"),
+]
+
+
 def _value(ctx, how, kw):
     parts = how.split(":")
     k = parts[0]
@@ -175,6 +187,15 @@ def _value(ctx, how, kw):
         return [ctx.int("v[0]", 0, 255), None, ctx.int("v[2]", 0, 255)]
     if k == "struct_a_only":
         return dict(a=ctx.int("v.a", 0, 255), o=None)
+    if k == "struct_ab2u16":
+        return dict(a=ctx.int("v.a", 0, 65535), b=ctx.bytes("v.b", key(1)))
+    if k == "bytes2n":
+        return ctx.bytes("v", 2 * (key(1) // 2))
+    if k == "struct_hbt":
+        h = ctx.int("v.h", 0, 255)            # the Pointer member targets offset 0 of the outer stream, where h lives
+        return dict(h=h, body=dict(f=h, p=ctx.bytes("v.p", key(1) if len(parts) > 1 else 3)), t=ctx.int("v.t", 0, 255))
+    if k == "struct_hb2":
+        return dict(h=ctx.int("v.h", 0, 255), body=dict(f=None, p=ctx.bytes("v.p", 2)))
     if k == "union_a":
         return dict(a=ctx.int("v.a", 0, 255))
     raise ValueError(how)
@@ -190,6 +211,8 @@ def instances(tier, seed):
         out.append(dict(name="gen  " + src(s), params=dict(kind="gen", spec=J(s), tier=tier)))
     for src_ in ("Pointer(this.off, Byte)", "Pointer(this.off, Int16ub)", "Struct('p'/Pointer(this._params.off, Byte), 'q'/Byte)", "Peek(Pointer(this.off, Byte))"):
         out.append(dict(name="pointer leaves the position: " + src_, params=dict(kind="pointerpos", source=src_)))
+    for source, keys, how in KW_ENCLOSED:
+        out.append(dict(name="ctx, enclosed  " + source, params=dict(kind="kw", source=source, keys={k: list(v) for k, v in keys.items()}, how=how, tier=tier, enclosed=True), expect=["sized"]))
     for source, keys, how in KW:
         out.append(dict(name="ctx  " + source, params=dict(kind="kw", source=source, keys={k: list(v) for k, v in keys.items()}, how=how, tier=tier)))
         for k in keys:
@@ -276,7 +299,7 @@ def harness(ctx, C, p):
         return "unsized"
     n = r.value
     v = _value(ctx, p["how"], kw)
-    if any(t in p["source"] for t in ("GreedyBytes", "GreedyRange", "ProcessXor", "ProcessRotateLeft", "Pointer", "Seek", "Select")) and "Peek" not in p["source"]:
+    if any(t in p["source"] for t in ("GreedyBytes", "GreedyRange", "ProcessXor", "ProcessRotateLeft", "Pointer", "Seek", "Select")) and "Peek" not in p["source"] and not p.get("enclosed"):
         # reads to end of stream / moves the stream by design: only the build side is measured
         st = ctx.stream()
         rb = api.outcome(d.build_stream, v, st, **kw)
